@@ -166,8 +166,35 @@ def early_returns(block):
     return dict(_seq(block["stmts"], block.get("l", 0)), el=block.get("el"))
 
 
+def _uses(nodes, name):
+    """occurrences of the single-segment path `name` in nodes (stops at a re-binding `let name = ..`, counting its initialiser)"""
+    n = 0
+
+    def rec(x):
+        nonlocal n
+        if isinstance(x, list):
+            for y in x:
+                rec(y)
+        elif isinstance(x, dict):
+            if x.get("k") == "path" and x.get("segs") == [name]:
+                n += 1
+                return
+            if x.get("k") == "macro" and x.get("args") is None and isinstance(x.get("tt"), (list, str)) and name in str(x.get("tt")):
+                n += 2  # used inside an unparsed macro: unknown number of uses
+            for k2, v in x.items():
+                if isinstance(v, (dict, list)) and k2 not in ("pat", "params", "ty", "sig"):
+                    rec(v)
+
+    for st in nodes:
+        rec(st)
+        if isinstance(st, dict) and st.get("k") == "let" and name in _paths_rebound(st.get("pat")):
+            break
+    return n
+
+
 class Canon:
-    def __init__(self, helpers=None, self_ty=None, iflet=False, lets=True, keep_lets=()):
+    def __init__(self, helpers=None, self_ty=None, iflet=False, lets=True, keep_lets=(), multi_use=False):
+        self.multi_use = multi_use  # inline locals used several times as well (duplicates their expression)
         self.helpers = helpers or {}
         self.self_ty = self_ty
         self.iflet = iflet
@@ -185,13 +212,14 @@ class Canon:
         env = {}
         out = []
         mutated = self._assigned_names(b)
-        for st in b["stmts"]:
+        stmts_all = b["stmts"]
+        for si, st in enumerate(stmts_all):
             if st.get("k") == "let":
                 init = self.expr(subst(st["init"], env)) if st.get("init") is not None else None
                 p = st["pat"]
                 while p["k"] == "typed":
                     p = p["pat"]
-                if self.lets and init is not None and p["k"] == "ident" and not p.get("mut") and p["name"] not in mutated and p["name"] not in self.keep_lets:
+                if self.lets and init is not None and p["k"] == "ident" and not p.get("mut") and p["name"] not in mutated and p["name"] not in self.keep_lets and (self.multi_use or _uses(stmts_all[si + 1 :], p["name"]) <= 1):
                     ty = st["pat"].get("ty") if st["pat"]["k"] == "typed" else st.get("ty")
                     if ty and is_node(init) and init.get("k") == "mcall" and init["m"] in ("collect", "into", "try_into", "sum", "product", "parse", "unzip") and not init.get("turbofish"):
                         init = dict(init, turbofish=str(ty))  # the annotation of the local decides the collection type: keep it on the call
@@ -355,7 +383,7 @@ class Canon:
             env[pat["name"]] = a
         self.depth += 1
         try:
-            sub = Canon(self.helpers, self.self_ty, self.iflet, True)
+            sub = Canon(self.helpers, self.self_ty, self.iflet, True, multi_use=True)
             sub.depth = self.depth
             body = sub.block(h["body"], toplevel=True)
         finally:
@@ -386,11 +414,11 @@ def helpers_of(src, file, keep=()):
     return out
 
 
-def canon_fn(f, src=None, keep=(), iflet=False, lets=True, keep_lets=(), helpers=True):
+def canon_fn(f, src=None, keep=(), iflet=False, lets=True, keep_lets=(), helpers=True, multi_use=False):
     """Canonical body of Fn f (see module doc)."""
     hs = helpers_of(src, f.file, keep=set(keep) | {f.name}) if (src is not None and helpers) else {}
     st = (f.self_ty or "").split("<")[0].replace("trait ", "") or None
-    c = Canon(hs, st, iflet=iflet, lets=lets, keep_lets=keep_lets)
+    c = Canon(hs, st, iflet=iflet, lets=lets, keep_lets=keep_lets, multi_use=multi_use)
     return c.block(f.body, toplevel=True)
 
 
